@@ -13,6 +13,14 @@ tags) are put through dict, JSON, form encoding and (sampled) JWT/JWE on the REA
    textual rendering of int and bool); for nested messages also: what the nested message says after
    construction and after every cycle is the intended content (construction from a dict IS the dict
    deserialisation, so the constructed message cannot serve as its own reference).
+ * histories (round 11): the cycles above are isolated (a fresh message, one cycle, the result thrown away); the
+   property quantifies over every message whatever the process did before.  `history` / `deser_histories` run
+   sequences in ONE process: serialise twice, read by two classes, every party edits its own instance in place,
+   read the same / a fresh identical / a fresh overlapping text again.  Oracle: a later reading gives what the
+   first reading of the text gave, instances held by different parties (and the class defaults) share no
+   mutable value (id() census), a message serialises the same twice.  Correspondence: the recorded history
+   against Model/MsgHistory.v `hrun` (deserialisation is a function of the wire form alone; an edit stays in
+   its slot), theorems C10_reading_history_independent, C10_edit_stays_in_its_instance, C10_*_after_history.
 """
 import copy
 import json
@@ -31,11 +39,23 @@ RULE = ("every Message subclass (introspection) x every declared parameter x sch
         "(declared member, extra member, JSON object member, a nested message one level down) x {nested object, "
         "plain dict} through dict, JSON and a signed JWT (RS256/ES256), judged against the intended content; the "
         "nested-message deserializers and deserialize_from_one_of against the model on the same values; a "
-        "malformed query-string stream for from_urlencoded; a case is one (class, parameter, value) cell and is "
+        "malformed query-string stream for from_urlencoded; HISTORIES of round trips in one process: every class x "
+        "{constructor, from_dict, JSON, form encoding, signed JWT, JWE read by from_jwe and by from_jwt} x {a message "
+        "rich in list / dict / nested-message values and list / dict extras, a message of the modelled fragment} x "
+        "another class reading the same wire form: the instance is serialised twice, read by both classes, sender and "
+        "receivers edit every list / dict / nested message of THEIR instances in place, then the same text, the text of "
+        "the second serialisation, of a fresh identical message and of a fresh overlapping message are read again "
+        "(every later reading = the first reading of that text = the model's answer on it; id() census: no mutable "
+        "value shared between instances held by different parties or with a class default); the nested-message "
+        "deserializers called twice on the same nested dict / JSON text / form text with an edit in between; a case is one (class, parameter, value) cell and is "
         "non-trivial when the message was constructed and at least one wire format was exercised")
 ASSUMPTIONS = ["json.dumps / json.loads are inverse on JSON values (trusted text layer, exercised by the oracle)",
                "cryptojwt JWS/JWE sign/verify and encrypt/decrypt are correct (exercised by the oracle)",
                "percent-decoded bytes that are not valid UTF-8 are outside the modelled fragment (Unmodelled)"]
+
+ASSUMPTIONS.append("the dict wire form is delivered by value (the transport's copy of to_dict() / of the dict handed to the "
+                   "constructor): Message.to_dict() and from_dict() pass list values by reference, which is aliasing inside "
+                   "one party, not a wire format")
 
 IMP = ["Lib.Base", "Lib.PyStr", "Lib.MsgSchema", "Model.Msg", "Model.MsgRules", "Model.MsgCheck"]
 LISTK = ("list", "spsep")
@@ -61,13 +81,68 @@ def form_eq(a, b):
     return strict_eq(a, b)
 
 
+# ---- histories of round trips in one process: census of mutable values and in-place edits
+def reach(v, acc=None):
+    """{id: object} for every mutable value reachable from v: lists, dicts, Message instances (and their _dict)"""
+    from idpyoidc.message import Message
+    acc = {} if acc is None else acc
+    if isinstance(v, Message):
+        if id(v) not in acc:
+            acc[id(v)] = v
+            reach(v._dict, acc)
+    elif isinstance(v, dict):
+        if id(v) not in acc:
+            acc[id(v)] = v
+            for x in v.values():
+                reach(x, acc)
+    elif isinstance(v, list):
+        if id(v) not in acc:
+            acc[id(v)] = v
+            for x in v:
+                reach(x, acc)
+    return acc
+
+
+def shared_mutables(a, b):
+    """the mutable values reachable from both a and b (two messages that must be independent)"""
+    ra, rb = reach(a), reach(b)
+    return [ra[i] for i in ra if i in rb]
+
+
+def edit_in_place(inst):
+    """the holder of `inst` works on ITS instance: every list, dict and nested message reachable from it is edited
+    in place (element removed, element appended, member deleted, member added), a top-level member is added.
+    Returns the number of values edited."""
+    from idpyoidc.message import Message
+    objs = list(reach(inst).values())
+    mdicts = {id(o._dict) for o in objs if isinstance(o, Message)}
+    n = 0
+    for o in objs:
+        if isinstance(o, Message):
+            if o is not inst:
+                o._dict["x_edited"] = "by the holder"
+                n += 1
+        elif isinstance(o, list):
+            if len(o) > 1:
+                del o[0]
+            o.append("edited by the holder")
+            n += 1
+        elif isinstance(o, dict) and id(o) not in mdicts:
+            for k in sorted(o, key=str)[:1]:
+                del o[k]
+            o["x_edited"] = ["by the holder"]
+            n += 1
+    inst._dict["x_added_by_the_holder"] = ["new"]
+    return n + 1
+
+
 class Run:
     def __init__(self, ctx):
         self.ctx = ctx
         self.rng = ctx.rng
         self.classes = C.discover()
         self.byname = dict(self.classes)
-        self.cases = {"construct": [], "to_dict": [], "to_url": [], "from_url": [], "one_of": []}
+        self.cases = {"construct": [], "to_dict": [], "to_url": [], "from_url": [], "one_of": [], "history": []}
         self.culprits = {}
         self.cells = 0
 
@@ -458,8 +533,15 @@ class Run:
         (with every nested class that occurs in a schema) and every deserializer of a scalar nested-message
         parameter (dict and JSON hand it the nested dict; those built on the helper also get form text).
         Inputs: the nested variants above that lie in the modelled fragment of the nested class."""
-        import sys
         ctx = self.ctx
+        targets, qual = self.nested_targets()
+        wire = {"dict": "WDict", "json": "WJson", "urlencoded": "WUrl"}
+        from idpyoidc.message import Message
+        self.one_of_loop(ctx, targets, qual, wire, Message)
+
+    def nested_targets(self):
+        """[(label, fn(value, sformat), nested class, parameter entry, formats)], {class: qualified name}"""
+        import sys
         targets, ncs, desers = [], {}, {}
         for name, cls in self.classes:
             for key, ent in cls.c_param.items():
@@ -480,8 +562,9 @@ class Run:
             on_helper = "deserialize_from_one_of" in getattr(getattr(d, "__code__", None), "co_names", ())
             targets.append((C.fname(d), (lambda val, fmt, d=d: d(val, sformat=fmt)), nc, ent,
                             ("dict", "json", "urlencoded") if on_helper else ("dict", "json")))
-        wire = {"dict": "WDict", "json": "WJson", "urlencoded": "WUrl"}
-        from idpyoidc.message import Message
+        return targets, qual
+
+    def one_of_loop(self, ctx, targets, qual, wire, Message):
         for label, fn, nc, ent, fmts in targets:
             if nc not in qual:
                 ctx.count("one_of:skipped(nested class is not a class of the table)")
@@ -838,6 +921,397 @@ class Run:
                     judge_jw("jwe", before, attempt(lambda: cls().from_jwt(w2[1], kj)), rec2)
                     ctx.count("roundtrip:jws-in-jwe:" + alg)
 
+    # ---- histories of round trips in one process -------------------------------------------------------------
+    # Deserialisation is a FUNCTION of the wire text alone: what a class reads from a text must not depend on
+    # what this process received, edited or serialised before, and two received instances share no mutable value.
+    HIST_FORMATS = ("dict", "from_dict", "json", "urlencoded", "jwt", "jwe", "jwe-from_jwt")
+    HIST_FFAM = {"dict": "json", "from_dict": "json", "json": "json", "urlencoded": "form", "jwt": "jwt",
+                 "jwe": "jwe", "jwe-from_jwt": "jwe"}
+    HIST_SECRET = "A1B2C3D4E5F6G7H8A1B2C3D4E5F6G7H8"
+    HIST_SIG = [("oct", "HS256"), ("RSA", "RS256"), ("EC", "ES256"), ("RSA", "PS256")]
+    HIST_ENC = [("RSA", "RSA-OAEP", "A128CBC-HS256"), ("EC", "ECDH-ES", "A128GCM"), ("RSA", "RSA1_5", "A256GCM")]
+    _hk = None
+    _hkw = None
+
+    def hist_keys(self):
+        if self._hk is None:
+            from cryptojwt.key_jar import build_keyjar
+            kj = build_keyjar([{"type": "RSA", "use": ["sig"]}, {"type": "RSA", "use": ["enc"]},
+                               {"type": "EC", "crv": "P-256", "use": ["sig"]}, {"type": "EC", "crv": "P-256", "use": ["enc"]}])
+            kj.add_symmetric("", self.HIST_SECRET)
+            self._hk = {"kj": kj, "jwks": kj.export_jwks(private=True)}
+        return self._hk
+
+    def h_send(self, fmt, m, hk, alg):
+        """the wire form of the instance m itself (dict: the transport's own copy of what to_dict() returned)"""
+        if fmt in ("dict", "from_dict"):
+            return copy.deepcopy(m.to_dict())
+        if fmt == "json":
+            return m.to_json()
+        if fmt == "urlencoded":
+            return m.to_urlencoded()
+        kj = hk["kj"]
+        if fmt == "jwt":
+            iss = m._dict.get("iss", "")
+            iss = iss if isinstance(iss, str) else ""
+            if iss and iss not in kj:       # the verifier knows the issuer's keys
+                kj.import_jwks(hk["jwks"], iss)
+                kj.add_symmetric(iss, self.HIST_SECRET)
+            return m.to_jwt(key=kj.get_signing_key(alg[0], iss), algorithm=alg[1])
+        return m.to_jwe(kj.get_encrypt_key(alg[0], ""), alg=alg[1], enc=alg[2])
+
+    def h_recv(self, fmt, cls, w, hk, alg):
+        """(instance | None, ("ok", canonical _dict) | ("exc", class)) : a receiver reads the wire form with `cls`"""
+        def go():
+            if fmt == "dict":
+                return cls(**copy.deepcopy(w))
+            if fmt == "from_dict":
+                return cls().from_dict(copy.deepcopy(w))
+            if fmt == "json":
+                return cls().from_json(w)
+            if fmt == "urlencoded":
+                return cls().from_urlencoded(w)
+            if fmt == "jwe":
+                return cls().from_jwe(w, hk["kj"].get_encrypt_key(alg[0], ""))
+            return cls().from_jwt(w, hk["kj"])
+        try:
+            m = go()
+        except Exception as e:   # noqa
+            return None, ("exc", type(e).__name__)
+        return m, ("ok", canon(dict(m._dict)))
+
+    def hist_kwargs(self, name, cls, group, rich):
+        """a message of the class with as many list-valued, dict-valued and nested-message parameters as the class
+        accepts and `group` (json | urlencoded) can serialise, plus list / dict extras; rich=False: parameters of
+        the modelled fragment only"""
+        if self._hkw is None:
+            self._hkw = {}
+        ck = (name, group, rich)
+        if ck not in self._hkw:
+            def ok(kw):
+                b = attempt(lambda: cls(**copy.deepcopy(kw)))
+                return b[0] == "ok" and attempt(lambda: b[1].to_json() if group == "json" else b[1].to_urlencoded())[0] == "ok"
+            kw = dict(C.base_kwargs(cls))
+            if not ok(kw):
+                kw = {}
+            cands, nstr = [], 0
+            for k, ent in cls.c_param.items():
+                if k == "*":
+                    continue
+                t1 = tier1(ent)
+                if t1 in LISTK:
+                    cands.append((k, ["p", "q", "r"]))
+                elif t1 == "str" and nstr < 2:
+                    nstr += 1
+                    cands.append((k, "a b&c=d %41+é"))
+                elif t1 is None and rich:
+                    cands.append((k, C.plain_value(ent)))
+            cands += [("x_list", ["p", "q r", "s"]), ("x_dict", {"a": 1, "b": ["c d", "e"]})]
+            if rich:
+                cands.append(("x_objs", [{"k": ["v", "w"]}, {"k2": {"deep": ["x"]}}]))
+            for k, v in cands:
+                trial = dict(kw)
+                trial[k] = copy.deepcopy(v)
+                if (not rich and not self.in_fragment(cls, trial)) or not ok(trial):
+                    continue
+                kw = trial
+            self._hkw[ck] = kw
+        return copy.deepcopy(self._hkw[ck])
+
+    default_ids = frozenset()
+    saved_defaults = None
+
+    def save_defaults(self):
+        """the class defaults (c_default) as they are before any history; the mutable values among them by id"""
+        if self.saved_defaults is None:
+            self.saved_defaults = [(c, copy.deepcopy(c.c_default)) for _, c in self.classes]
+            ids = set()
+            for _, c in self.classes:
+                ids |= set(reach(c.c_default))
+            self.default_ids = frozenset(ids)
+
+    def restore_defaults(self):
+        """a history that edited a value shared with a class default has changed the class for the rest of the
+        process: put the defaults back (in place, the objects keep their identity) so that every history and every
+        other family starts from the class as defined"""
+        n = 0
+        for c, saved in self.saved_defaults or ():
+            if not strict_eq(canon(c.c_default), canon(saved)):
+                n += 1
+                for k in list(c.c_default):
+                    if k not in saved:
+                        del c.c_default[k]
+                for k, v in saved.items():
+                    cur = c.c_default.get(k)
+                    if isinstance(cur, list) and isinstance(v, list):
+                        cur[:] = copy.deepcopy(v)
+                    elif isinstance(cur, dict) and isinstance(v, dict):
+                        cur.clear()
+                        cur.update(copy.deepcopy(v))
+                    else:
+                        c.c_default[k] = copy.deepcopy(v)
+        if n:
+            self.ctx.count("history:class-defaults-restored", n)
+
+    def history(self, name, cls, kw, fmt, other, alg=None, model=False):
+        self.save_defaults()
+        try:
+            self.history_(name, cls, kw, fmt, other, alg, model)
+        finally:
+            self.restore_defaults()
+
+    def history_(self, name, cls, kw, fmt, other, alg=None, model=False):
+        """one history in this process, for one class, one message and one wire format:
+             the sender serialises its instance twice; the text is read by the class and by another class
+             (baselines); both receivers and the sender edit THEIR instances in place; the same text, the text of
+             the second serialisation, the text of a fresh identical message and the text of a fresh overlapping
+             message are read again.
+           Oracle: every later reading of a text gives what the first reading of that text gave (and, where the
+           isolated cycle preserved the message, the message that was serialised); no two instances held by
+           different parties share a mutable value; serialising an instance twice gives the same wire form."""
+        ctx = self.ctx
+        hk = self.hist_keys()
+        oname, ocls = other
+        ffam = self.HIST_FFAM[fmt]
+        rec = {"class": name, "kwargs": canon(kw), "history": fmt, "other_class": oname, "alg": list(alg) if alg else None}
+        self.cells += 1
+        b = attempt(lambda: cls(**copy.deepcopy(kw)))
+        if b[0] == "exc":
+            ctx.count("history:construct-refused")
+            ctx.case_seen(rec, False)
+            return
+        m = b[1]
+        sent = canon(dict(m._dict))
+        w = attempt(lambda: self.h_send(fmt, m, hk, alg))
+        if w[0] == "exc":
+            ctx.count("history:not-serialisable:" + fmt)
+            ctx.case_seen(rec, False)
+            return
+        w = w[1]
+        ctx.case_seen(rec, True)
+        ctx.count("history:" + fmt)
+        textual = fmt in ("dict", "from_dict", "json", "urlencoded")      # the wire form is determined by the message
+        eq = form_eq if fmt == "urlencoded" else strict_eq
+
+        def value_violation(step, want, got, c=None):
+            # a difference confined to members that are a mutable class default (c_default holds a list / dict that
+            # set_defaults hands to every instance) has a signature of its own
+            fam = ffam
+            if c is not None and want[0] == "ok" and got[0] == "ok":
+                dk = [k for k in set(want[1]) | set(got[1]) if k not in want[1] or k not in got[1] or not strict_eq(want[1][k], got[1][k])]
+                if dk and all(isinstance(c.c_default.get(k), (list, dict)) for k in dk):
+                    fam = "class-default"
+            ctx.count("violation:history:" + fam)
+            if "history:" + fam not in told_h:       # one verdict per signature and history
+                told_h.add("history:" + fam)
+                ctx.violation("history:" + fam, "%s of %s, %s: reading the wire form gives %r where the first reading of it gave %r"
+                              % (fmt, name, step, got, want), dict(rec, step=step))
+
+        told_h = set()
+
+        def census(step, a, la, holders):
+            told = told_h
+            for lb, h in holders:
+                if a is None or h is None or a is h:
+                    continue
+                for fam, sh in (("class-default", [o for o in shared_mutables(a, h) if id(o) in self.default_ids]),
+                                (ffam, [o for o in shared_mutables(a, h) if id(o) not in self.default_ids])):
+                    if sh and "shared-mutable:" + fam not in told:
+                        told.add("shared-mutable:" + fam)
+                        ctx.violation("shared-mutable:" + fam, "%s of %s, %s: %s and %s share %d mutable value(s), e.g. %r"
+                                      % (fmt, name, step, la, lb, len(sh), canon(sh[0])), dict(rec, step=step))
+                        ctx.count("violation:shared-mutable:" + fam)
+
+        w2 = attempt(lambda: self.h_send(fmt, m, hk, alg))
+        # baselines: first reading of the text, by the class and by another class
+        r0, s0 = self.h_recv(fmt, cls, w, hk, alg)
+        b0, t0 = self.h_recv(fmt, ocls, w, hk, alg)
+        preserved = s0[0] == "ok" and not [k for k in set(sent) | set(s0[1]) if k not in sent or k not in s0[1] or not eq(sent[k], s0[1][k])]
+        ctx.count("history:isolated-cycle-" + ("preserves" if preserved else "differs(judged by the other families)"))
+        # (a wire form that does not carry the message - the known form findings, object reprs - is not judged here)
+        if preserved and (w2[0] == "exc" or (textual and not strict_eq(w2[1], w))):
+            ctx.violation("history:serialise-twice:" + ffam, "%s of %s: serialising the same instance a second time gives %r, the first time %r"
+                          % (fmt, name, w2[1], w), dict(rec, step="serialise twice"))
+        if preserved and w2[0] == "ok" and fmt == "jwt" and alg[1] in ("HS256", "RS256") and w2[1] != w \
+                and strict_eq(sent, canon(dict(m._dict))):
+            ctx.violation("history:serialise-twice:" + ffam, "%s of %s: a deterministic signature over the same message gives two texts"
+                          % (fmt, name), dict(rec, step="serialise twice"))
+        held = [("the sender's instance", m), ("the first received instance", r0), ("the instance the other class received", b0)]
+        census("first reading", r0, "the first received instance", held[:1] + held[2:])
+        census("first reading", b0, "the instance the other class received", held[:1])
+        # every party works on its own instance
+        for _, h in held:
+            if h is not None:
+                ctx.count("history:values-edited-in-place", edit_in_place(h))
+        e0 = ("ok", canon(dict(r0._dict))) if r0 is not None else None
+        eb0 = ("ok", canon(dict(b0._dict))) if b0 is not None else None
+        # later readings
+        later = [("the same text read again", cls, w, s0), ("the same text read by the other class again", ocls, w, t0)]
+        if w2[0] == "ok":
+            later.append(("the text of the second serialisation", cls, w2[1], s0))
+        fresh = attempt(lambda: cls(**copy.deepcopy(kw)))
+        wf = attempt(lambda: self.h_send(fmt, fresh[1], hk, alg)) if fresh[0] == "ok" else fresh
+        if wf[0] == "ok":
+            if preserved and textual and not strict_eq(wf[1], w):
+                ctx.violation("history:serialise-twice:" + ffam, "%s of %s: a fresh identical message is serialised as %r, the first one as %r"
+                              % (fmt, name, wf[1], w), dict(rec, step="fresh identical message"))
+            held.append(("the fresh sender's instance", fresh[1]))
+            if not textual or strict_eq(wf[1], w):      # (a text with an object address in it is a new text every time)
+                later.append(("the text of a fresh identical message", cls, wf[1], s0))
+                later.append(("the text of a fresh identical message, other class", ocls, wf[1], t0))
+        else:
+            value_violation("fresh identical message", "a wire form", wf)
+        after = {}
+        for step, c, text, want in later:
+            r, s = self.h_recv(fmt, c, text, hk, alg)
+            ctx.count("history:later-readings")
+            after[step] = (r, s)
+            if not strict_eq(list(s), list(want)):
+                value_violation(step, want, s, c)
+            elif preserved and c is cls and (s[0] != "ok" or self.differing(fmt, sent, s[1])):
+                value_violation(step + " (against the message serialised)", ("ok", sent), s, c)
+            census(step, r, "the instance read at this step", held)
+            held.append(("the instance of step '%s'" % step, r))
+        # a fresh message whose wire text overlaps with the first one (one element more, one value changed)
+        kw2 = copy.deepcopy(kw)
+        for k in sorted(kw2):
+            if isinstance(kw2[k], list) and kw2[k] and all(isinstance(x, str) for x in kw2[k]):
+                kw2[k] = kw2[k] + ["zzz"]
+                break
+        kw2["x_other"] = ["only", "here"] if fmt != "urlencoded" else "only-here"
+        m2 = attempt(lambda: cls(**copy.deepcopy(kw2)))
+        if m2[0] == "ok" and preserved:
+            sent2 = canon(dict(m2[1]._dict))
+            wo = attempt(lambda: self.h_send(fmt, m2[1], hk, alg))
+            if wo[0] == "ok":
+                r, s = self.h_recv(fmt, cls, wo[1], hk, alg)
+                ctx.count("history:overlapping-readings")
+                if s[0] != "ok" or self.differing(fmt, sent2, s[1]):
+                    ctx.violation("history:" + ffam, "%s of %s, a fresh overlapping message after the history: %r comes back as %r"
+                                  % (fmt, name, sent2, s), dict(rec, step="overlapping message", kwargs2=canon(kw2)))
+                    ctx.count("violation:history:" + ffam)
+                census("overlapping message", r, "the instance read at this step", held)
+        # ---- the same history for the model (deserialisation = a function of the wire form: Model/MsgHistory.v)
+        if not model or fmt not in ("dict", "from_dict", "json", "urlencoded"):
+            return
+        r1, s1 = after["the same text read again"]
+        b1, t1 = after["the same text read by the other class again"]
+        outs = [s0, t0, e0, eb0, s1, t1]
+        if any(o is not None and ((o[0] == "exc" and o[1] not in C.EXC) or (o[0] == "ok" and not pure_json(o[1]))) for o in outs):
+            ctx.count("history:skipped-model(outside the value universe)")
+            return
+        if fmt == "urlencoded":
+            if not all(ord(ch) < 128 for ch in w):
+                return
+            recv = lambda n: "HFromUrl %s %s" % (coq_str(n), coq_str(w))
+        else:
+            d = json.loads(w) if fmt == "json" else w
+            if not pure_json(d):
+                return
+            recv = lambda n: "HConstruct %s %s" % (coq_str(n), coq_msg(d))
+
+        def edits(slot, before, now):
+            ev = []
+            for k in before:
+                if k not in now:
+                    ev.append("HDel %d %s" % (slot, coq_str(k)))
+            for k, v in now.items():
+                if k not in before or not strict_eq(before[k], v):
+                    ev.append("HSet %d %s %s" % (slot, coq_str(k), coq_pyval(v)))
+            return ev
+        evs, exp = [recv(name), recv(oname)], ["OMsg %s" % coq_res(s0, coq_msg), "OMsg %s" % coq_res(t0, coq_msg)]
+        for slot, (o, e) in enumerate(((s0, e0), (t0, eb0))):
+            if o[0] == "ok":
+                ee = edits(slot, o[1], e[1])
+                evs += ee
+                exp += ["ONone"] * len(ee)
+        evs += [recv(name), recv(oname)]
+        exp += ["OMsg %s" % coq_res(s1, coq_msg), "OMsg %s" % coq_res(t1, coq_msg)]
+        if r1 is not None:      # the untouched later instance is sent on
+            if fmt == "urlencoded":
+                t = attempt(lambda: copy.deepcopy(r1).to_urlencoded())
+                if t[0] == "ok" or t[1] in C.EXC:
+                    evs.append("HToUrl %s 2" % coq_str(name))
+                    exp.append("OText %s" % coq_res(t, coq_str))
+            else:
+                t = attempt(lambda: canon(copy.deepcopy(r1).to_dict()))
+                if (t[0] == "ok" and pure_json(t[1])) or (t[0] == "exc" and t[1] in C.EXC):
+                    evs.append("HToDict %s 2" % coq_str(name))
+                    exp.append("OMsg %s" % coq_res(t, coq_msg))
+        inp = coq_list(["(%s)" % e for e in evs], "hev")
+        self.cases["history"].append(("(%s, Ok %s)" % (inp, coq_list(["(%s)" % e for e in exp], "hout")), inp, rec))
+
+    def histories(self):
+        """every class x every wire format (dict by constructor and by from_dict, JSON, form encoding, signed JWT,
+        encrypted JWT read by from_jwe and by from_jwt) x {a message rich in list / dict / nested-message values,
+        a message of the modelled fragment} x another class reading the same wire form"""
+        ctx, rng = self.ctx, self.rng
+        frag = [(n, c) for n, c in self.classes if "*" not in c.c_param]
+        self.save_defaults()
+        crypto = set(n for n, _ in (self.classes if not ctx.quick else rng.sample(self.classes, 24)))
+        for name, cls in self.classes:
+            for fmt in self.HIST_FORMATS:
+                if fmt.startswith("jw") and name not in crypto:
+                    continue
+                group = "urlencoded" if fmt == "urlencoded" else "json"
+                alg = None
+                if fmt == "jwt":
+                    alg = rng.choice(self.HIST_SIG)
+                elif fmt == "jwe":
+                    alg = rng.choice(self.HIST_ENC)
+                elif fmt == "jwe-from_jwt":
+                    alg = rng.choice(JWE_ALGS) + (rng.choice(JWE_ENCS),)
+                others = [x for x in self.classes if x[0] != name]
+                self.history(name, cls, self.hist_kwargs(name, cls, group, True), fmt, rng.choice(others), alg)
+                if "*" not in cls.c_param and (fmt in ("dict", "json", "urlencoded") or not ctx.quick):
+                    kw = self.hist_kwargs(name, cls, group, False)
+                    if self.in_fragment(cls, kw):
+                        self.history(name, cls, kw, fmt, rng.choice([x for x in frag if x[0] != name]), alg, model=True)
+
+    def deser_histories(self):
+        """the nested-message deserializers called directly (deserialize_from_one_of and every parameter
+        deserializer that yields a nested message): the same value (nested dict, JSON text, form text) is read,
+        the holder edits the nested message it got, the value is read again"""
+        from idpyoidc.message import Message
+        ctx, rng = self.ctx, self.rng
+        targets, qual = self.nested_targets()
+        for label, fn, nc, ent, fmts in targets:
+            strs = self.NESTED_STRS[:1] + rng.sample(self.NESTED_STRS[1:], 1 if ctx.quick else 3)
+            for s in strs:
+                for where, plain in self.nested_variants(ent, s)[: 3 if ctx.quick else None]:
+                    plain = dict(plain, x_list=["p", "q", "r"], x_dict={"a": ["b", "c"]})
+                    for fmt in tuple(fmts) + ("json-text",):
+                        if fmt == "urlencoded":
+                            t = attempt(lambda: nc(**copy.deepcopy(plain)).to_urlencoded())
+                            if t[0] != "ok":
+                                continue
+                            mk = lambda: t[1]
+                        elif fmt == "json-text":
+                            mk = lambda: json.dumps(plain)
+                        else:
+                            mk = lambda: copy.deepcopy(plain)
+                        sf = "json" if fmt == "json-text" else fmt
+                        rec = {"deserializer": label, "class": qual.get(nc, nc.__name__), "format": fmt, "value": canon(mk()), "history": "deserializer"}
+                        r0 = attempt(lambda: fn(mk(), sf))
+                        ctx.case_seen(rec, r0[0] == "ok")
+                        ctx.count("history:deserializer:" + fmt)
+                        if r0[0] != "ok" or not isinstance(r0[1], Message):
+                            continue
+                        s0 = canon(dict(r0[1]._dict))
+                        edit_in_place(r0[1])
+                        r1 = attempt(lambda: fn(mk(), sf))
+                        ffam = "form" if fmt == "urlencoded" else "json"
+                        if r1[0] != "ok" or not isinstance(r1[1], Message) or not strict_eq(canon(dict(r1[1]._dict)), s0):
+                            ctx.violation("history:" + ffam, "nested-message deserializer %s (%s): the second reading of %r gives %r, the first gave %r"
+                                          % (label, fmt, canon(mk()), canon(dict(r1[1]._dict)) if r1[0] == "ok" and isinstance(r1[1], Message) else r1, s0), rec)
+                            ctx.count("violation:history:" + ffam)
+                            continue
+                        sh = shared_mutables(r0[1], r1[1])
+                        if sh:
+                            ctx.violation("shared-mutable:" + ffam, "nested-message deserializer %s (%s): two readings of %r share %d mutable value(s), e.g. %r"
+                                          % (label, fmt, canon(mk()), len(sh), canon(sh[0])), rec)
+                            ctx.count("violation:shared-mutable:" + ffam)
+
     def run_model(self):
         ctx = self.ctx
         cap = 900 if ctx.quick else 10 ** 9
@@ -845,12 +1319,14 @@ class Run:
                                   ("to_dict", "pystr * msg * res msg", "chk_to_dict", "m_to_dict"),
                                   ("to_url", "pystr * msg * res pystr", "chk_to_url", "m_to_url"),
                                   ("from_url", "pystr * pystr * res msg", "chk_from_url", "m_from_url"),
-                                  ("one_of", "pystr * wire * pyval * res msg", "chk_one_of", "m_one_of")):
+                                  ("one_of", "pystr * wire * pyval * res msg", "chk_one_of", "m_one_of"),
+                                  ("history", "list hev * res (list hout)", "chk_history", "m_history")):
             cs = self.cases[kind]
-            if len(cs) > cap:
-                cs = self.rng.sample(cs, cap)
+            kcap = cap if kind != "history" else (160 if ctx.quick else cap)      # (a history carries its wire form four times)
+            if len(cs) > kcap:
+                cs = self.rng.sample(cs, kcap)
             ctx.count("model-cases:" + kind, len(cs))
-            C.check_cases(ctx, IMP, ty, chk, fn, cs, kind)
+            C.check_cases(ctx, IMP + ["Model.MsgHistory"] if kind == "history" else IMP, ty, chk, fn, cs, kind, shard=40 if kind == "history" else 300)
 
 
 def run(ctx):
@@ -862,6 +1338,8 @@ def run(ctx):
     r.grid()
     r.nested()
     r.one_of_cases()
+    r.histories()
+    r.deser_histories()
     r.malformed()
     r.jwt()
     r.run_model()
@@ -881,6 +1359,18 @@ def replay(ctx, rp):
             kj = build_keyjar([{"type": "RSA", "use": ["sig"]}, {"type": "EC", "crv": "P-256", "use": ["sig"]}])
             r.nested_cell(case["class"], cls, case["key"], ent, case["nested"], plain, case.get("mode", "instance"),
                           jwt_keys=(kj, "EC" if alg.startswith("ES") else "RSA", alg))
+            return
+    if isinstance(case, dict) and case.get("history") == "deserializer":
+        Run(ctx).deser_histories()
+        return
+    if isinstance(case, dict) and "history" in case and "class" in case and "kwargs" in case:
+        r = Run(ctx)
+        byname = dict(r.classes)
+        if case["class"] in byname and case.get("other_class") in byname:
+            alg = tuple(case["alg"]) if case.get("alg") else None
+            r.history(case["class"], byname[case["class"]], case["kwargs"], case["history"],
+                      (case["other_class"], byname[case["other_class"]]), alg, model=True)
+            r.run_model()
             return
     if isinstance(case, dict) and "class" in case and "kwargs" in case:
         r = Run(ctx)
